@@ -30,6 +30,12 @@ Fixpoint dec_events (fuel : nat) (l : list Z) : option (list c01_event) :=
     | 4 :: t => match dec_motion t with       (* a motion command accepted while another task is inside the context: it waits *)
                 | Some (m, rest) => option_map (cons (ECmd (OMotion m))) (dec_events fuel' rest)
                 | None => None end
+    (* a motion command accepted by the command task WHILE the tick task is inside tick, between its read of the
+       shared context and its emission (Sched.v: read, command, emit): tick reads the context once, so this is
+       observably the sequential history tick; command - same frames per call, same final state *)
+    | 5 :: t => match dec_motion t with
+                | Some (m, rest) => option_map (fun r => ETick :: ECmd (OMotion m) :: r) (dec_events fuel' rest)
+                | None => None end
     | 2 :: k :: t => option_map (cons (ECmd (other_object k))) (dec_events fuel' t)
     | 3 :: id :: b0 :: b1 :: b2 :: b3 :: b4 :: b5 :: b6 :: b7 :: t =>
         option_map (cons (ERx {| f_id := id; f_data := [b0; b1; b2; b3; b4; b5; b6; b7] |})) (dec_events fuel' t)
